@@ -475,7 +475,7 @@ struct Ctx
   // structural suffix for a wrong "true": was it a fresh evaluation or possibly a cached answer, and after which kind of edit
   string staleClass(bool lastAnswer) const
   {
-    if (!lastAnswer || editsSince.empty()) return ":fresh-evaluation";
+    if (!lastAnswer || editsSince.empty()) return ":not-after-a-true-answer";
     return ":answer-was-true-before:" + (editsSince.size() == 1 ? "then-" + *editsSince.begin() : string("then-several-edits"));
   }
 };
